@@ -435,8 +435,10 @@ def report(b, prop, P, tier, seed, first, results, t0, args):
             "runs_per_hour": int(len(results) / max(wall - b.build_s, 0.001) * 3600),
             "distinct_run_hashes": len(hashes), "distinct_state_signatures": len(sigs),
             "faults_fired": dict(faults), "reach_probes": dict(probes),
-            "real_vs_stub": {"real": ["server package (instrumented copy of the working tree)", "protocol package", "client package", "start-up and recovery paths", "accept loop", "AOF file format on tmpfs files"],
-                             "stub": ["TCP network (snet)", "OS scheduler (ssched)", "clocks and timers (synctest fake clock + stime)", "math/rand and crypto/rand", "os/signal", "process kill"]},
+            "real_vs_stub": {"real": ["server package (instrumented copy of the working tree)", "protocol package", "client package", "start-up and recovery paths", "accept loop", "AOF file format on tmpfs files"]
+                             + (["kind election: ArbiterManager, ArbiterVoter, the vote/proposal/commit handlers, ArbiterClient.Request and ArbiterStore (meta.pb) only; no server, lock engine or replication runs in that kind"] if kinds.get("election") else []),
+                             "stub": ["TCP network (snet)", "OS scheduler (ssched)", "clocks and timers (synctest fake clock + stime)", "math/rand and crypto/rand", "os/signal", "process kill"]
+                             + (["kind election: the connections between members (a connection object owned by the harness: each request and reply is delivered, reordered or lost by the seeded driver); member restart = a new ArbiterManager loaded from meta.pb"] if kinds.get("election") else [])},
             "determinism_selftest": st,
             "known_findings_hit": dict(known_hits),
             "violations": vio_info,
